@@ -426,11 +426,44 @@ def check(run):
             raise AnalysisError('C19: %s lacks __hash__/__richcmp__' % cq)
         Kc = cq.rsplit('.', 1)[0] + '|' + ci.name + '|'
         hashed = None
+
+        def key_tuple(e):
+            # the tuple a key helper returns: self._key() -> (self.a, self.b.c, ...)
+            if isinstance(e, ast.Call) and isinstance(e.func, ast.Attribute) and not e.args and e.func.attr in ci.methods:
+                rets = [r for r in ast.walk(ci.methods[e.func.attr]) if isinstance(r, ast.Return) and r.value is not None]
+                if len(rets) == 1 and isinstance(rets[0].value, ast.Tuple):
+                    return rets[0].value
+            return e if isinstance(e, ast.Tuple) else None
+        projected = []
         for n in ast.walk(h):
-            if isinstance(n, ast.Call) and dotted(n.func) == 'hash' and isinstance(n.args[0], ast.Tuple):
-                hashed = [x.attr for x in n.args[0].elts if isinstance(x, ast.Attribute) and norm(x.value) == 'self']
-                if len(hashed) != len(n.args[0].elts):
-                    hashed = None
+            if isinstance(n, ast.Call) and dotted(n.func) == 'hash' and n.args and key_tuple(n.args[0]) is not None:
+                tup = key_tuple(n.args[0])
+                hashed = []
+                for x in tup.elts:
+                    if isinstance(x, ast.Attribute) and norm(x.value) == 'self':
+                        hashed.append(x.attr)
+                    elif isinstance(x, ast.Attribute) and isinstance(x.value, ast.Attribute) and norm(x.value.value) == 'self':
+                        hashed.append(x.value.attr)
+                        projected.append((x.value.attr, x.attr, x))
+                    else:
+                        hashed = None
+                        break
+        # a component that is an attribute *of* a field (self.element.symbol) identifies the field only if that attribute is unique
+        for fld, attr, node in projected:
+            run.subject('C19-R4')
+            vals = {}
+            for var, rec in list(elements.items()) + list(isotopes.items()):
+                if attr in rec:
+                    vals.setdefault(rec[attr], []).append(var)
+            clash = sorted(v for v in vals.values() if len(v) > 1)
+            if fld == 'element' and clash:
+                run.fail('C19-R4', Kc + 'projected-key:' + attr, path, node.lineno,
+                         "%s is identified by %s.%s instead of the %s itself: %s share the same %s, so lines of different species compare equal, "
+                         "hash alike and overwrite each other as dictionary keys" % (ci.name, fld, attr, fld, ' and '.join(clash[0][:2]), attr))
+            elif fld == 'element' and vals:
+                run.ok('C19-R4', '%s key %s.%s' % (ci.name, fld, attr), 'unique over %d registry objects' % sum(len(v) for v in vals.values()))
+            else:
+                run.undecided('C19-R4', '%s key %s.%s' % (ci.name, fld, attr), 'uniqueness of the attribute not known')
         if hashed is None:
             run.undecided('C19-R4', ci.name + '.__hash__', 'not hash((self.a, self.b, ...))')
             continue
@@ -445,6 +478,17 @@ def check(run):
                 if not ret:
                     continue
                 e = ret[0].value
+                # key-tuple spelling: self._key() == other._key()
+                if isinstance(e, ast.Compare) and len(e.ops) == 1 and key_tuple(e.left) is not None and isinstance(e.comparators[0], ast.Call) \
+                        and isinstance(e.comparators[0].func, ast.Attribute) and isinstance(e.left, ast.Call) \
+                        and e.comparators[0].func.attr == e.left.func.attr:
+                    flds_ = [x.attr if norm(x.value) == 'self' else x.value.attr for x in key_tuple(e.left).elts if isinstance(x, ast.Attribute)]
+                    if code == 2 and isinstance(e.ops[0], ast.Eq):
+                        eq_fields = flds_
+                        continue
+                    if code == 3 and isinstance(e.ops[0], ast.NotEq):
+                        ne_fields = flds_
+                        continue
                 if code == 2:
                     eq_fields = _cmp_fields(e, ast.And, ast.Eq)
                 if code == 3:
